@@ -38,6 +38,7 @@ structure Rule where
 
 structure Event where
   name : Str
+  bucket : Str           -- ObjectEvent.Bucket: the configuration consulted AND the bucket named in the payload
   key : Str
   deriving Repr, DecidableEq
 
@@ -66,24 +67,71 @@ def ruleMatches (r : Rule) (e : Event) : Bool :=
 structure Config where
   rules : List Rule              -- allRules: topics ++ queues ++ cloud functions
   eventBridge : Bool
-  bucket : Str
   deriving Repr, DecidableEq
 
-/-- an outbox row as far as the property looks at it -/
+/-- an outbox row as far as the property looks at it: destination, event name, and the bucket /
+key its payload names -/
 structure Row where
   dest : Str
   event : Str
+  bucket : Str
+  key : Str
   deriving Repr, DecidableEq
 
 def eventBridgeDest (bucket : Str) : Str := eventBridgePrefix ++ bucket
 
-/-- `buildEntriesForEvent` -/
+/-- `buildEntriesForEvent` with the configuration `c` of the event's bucket -/
 def entriesFor (c : Config) (e : Event) : List Row :=
-  ((c.rules.filter (fun r => ruleMatches r e)).map fun r => { dest := r.dest, event := e.name }) ++
-  (if c.eventBridge then [{ dest := eventBridgeDest c.bucket, event := e.name }] else [])
+  ((c.rules.filter (fun r => ruleMatches r e)).map fun r => { dest := r.dest, event := e.name, bucket := e.bucket, key := e.key }) ++
+  (if c.eventBridge then [{ dest := eventBridgeDest e.bucket, event := e.name, bucket := e.bucket, key := e.key }] else [])
 
-/-- `enqueueEvents` for the events of one mutation -/
-def entriesForAll (c : Config) (es : List Event) : List Row := es.flatMap (entriesFor c)
+/-- `enqueueEvents` for the events of one mutation: each event is evaluated against
+`GetBucketNotificationConfiguration(event.Bucket)` -/
+def entriesForAll (cfgOf : Str → Config) (es : List Event) : List Row := es.flatMap (fun e => entriesFor (cfgOf e.bucket) e)
+
+/-! ### which events a call through the middleware produces -/
+
+structure Target where
+  bucket : Str
+  key : Str
+  deriving Repr, DecidableEq
+
+/-- the object-mutating calls of `storage.Storage` (TransitionObjectStorageClass emits only under the
+lifecycle override and is left out) -/
+inductive Call where
+  | put (t : Target)
+  | copy (src dst : Target)
+  | complete (t : Target)
+  | delete (t : Target) (marker : Bool)                      -- marker: the result is a new delete marker
+  | deleteObjects (bucket : Str) (ks : List (Str × Bool))    -- deleted keys with their marker flag
+  | tagPut (t : Target)
+  | tagDel (t : Target)
+  | append (t : Target)
+  deriving Repr, DecidableEq
+
+def s (x : String) : Str := x.toList
+
+def evCreatedPut : Str := s "s3:ObjectCreated:Put"
+def evCreatedCopy : Str := s "s3:ObjectCreated:Copy"
+def evCreatedComplete : Str := s "s3:ObjectCreated:CompleteMultipartUpload"
+def evRemovedDelete : Str := s "s3:ObjectRemoved:Delete"
+def evRemovedMarker : Str := s "s3:ObjectRemoved:DeleteMarkerCreated"
+def evTaggingPut : Str := s "s3:ObjectTagging:Put"
+def evTaggingDelete : Str := s "s3:ObjectTagging:Delete"
+
+def removedName (marker : Bool) : Str := if marker then evRemovedMarker else evRemovedDelete
+
+/-- the `ObjectEvent`s the overrides build (storage.go). CopyObject: `Bucket: dstBucket, Key: dstKey`.
+AppendObject is not overridden: no event. -/
+def codeEvents : Call → List Event
+  | .put t => [{ name := evCreatedPut, bucket := t.bucket, key := t.key }]
+  | .copy _ dst => [{ name := evCreatedCopy, bucket := dst.bucket, key := dst.key }]
+  | .complete t => [{ name := evCreatedComplete, bucket := t.bucket, key := t.key }]
+  | .delete t m => [{ name := removedName m, bucket := t.bucket, key := t.key }]
+  | .deleteObjects b ks => ks.map fun k => { name := removedName k.2, bucket := b, key := k.1 }
+  | .tagPut t => [{ name := evTaggingPut, bucket := t.bucket, key := t.key }]
+  | .tagDel t => [{ name := evTaggingDelete, bucket := t.bucket, key := t.key }]
+  | .append _ => []
 
 /-! ### (b) one mutation attempt -/
 
@@ -148,5 +196,70 @@ def runScript (c : DCfg) (attempts : Nat) : List Bool → Final × List Pub
     else
       let (f, ps) := runScript c a rest
       (f, { attempt := a, ok := false, delay := backoff c a } :: ps)
+
+/-! ### (c′) lost reports: crashes, lease expiry, failing outbox updates
+
+The report of an attempt (DeleteByClaimOwner / ReleaseClaim / DeadLetter) can be lost: the worker
+dies after the claim, or the UPDATE fails (its error is ignored). The row then stays claimed until
+`claim_until` passes and is claimed again — `attempts` goes up by one more. -/
+
+inductive PubOutcome where
+  | ok | fail
+  | okLost      -- published, but the delete of the row was lost
+  | failLost    -- publish failed (or the worker died), and release / dead-letter was lost
+  deriving Repr, DecidableEq
+
+def PubOutcome.published : PubOutcome → Bool
+  | .ok => true | .okLost => true | _ => false
+
+/-- `runScript` with lost reports -/
+def runOutcomes (c : DCfg) (attempts : Nat) : List PubOutcome → Final × List Pub
+  | [] => (.pending attempts, [])
+  | o :: rest =>
+    let a := attempts + 1
+    match o with
+    | .ok => (.delivered, [{ attempt := a, ok := true, delay := 0 }])
+    | .fail =>
+      if c.maxAttempts > 0 && a ≥ c.maxAttempts then (.dead, [{ attempt := a, ok := false, delay := 0 }])
+      else
+        let (f, ps) := runOutcomes c a rest
+        (f, { attempt := a, ok := false, delay := backoff c a } :: ps)
+    | .okLost =>
+      let (f, ps) := runOutcomes c a rest
+      (f, { attempt := a, ok := true, delay := 0 } :: ps)
+    | .failLost =>
+      let (f, ps) := runOutcomes c a rest
+      (f, { attempt := a, ok := false, delay := 0 } :: ps)
+
+/-- The same as a transition system over ALL schedules of one entry: any interleaving of claims,
+reports and lost reports, starting from any attempt count (a lowered MaxAttempts meets entries
+that already have more attempts). -/
+inductive Phase where
+  | pending | claimed | delivered | dead
+  deriving Repr, DecidableEq
+
+structure DState where
+  phase : Phase
+  attempts : Nat
+  lost : Nat              -- reports lost so far
+  deriving Repr, DecidableEq
+
+inductive DStep where
+  | claim         -- ClaimFirst: attempts += 1
+  | reportOk      -- publish succeeded, row deleted
+  | reportFail    -- publish failed: dead-letter if MaxAttempts > 0 ∧ attempts ≥ MaxAttempts, else release
+  | lose          -- the report never lands; the lease expires
+  deriving Repr, DecidableEq
+
+def dstep (c : DCfg) (st : DState) : DStep → DState
+  | .claim => if st.phase = .pending then { st with phase := .claimed, attempts := st.attempts + 1 } else st
+  | .reportOk => if st.phase = .claimed then { st with phase := .delivered } else st
+  | .reportFail =>
+    if st.phase = .claimed then
+      if c.maxAttempts > 0 && st.attempts ≥ c.maxAttempts then { st with phase := .dead } else { st with phase := .pending }
+    else st
+  | .lose => if st.phase = .claimed then { st with phase := .pending, lost := st.lost + 1 } else st
+
+def drun (c : DCfg) (st : DState) (steps : List DStep) : DState := steps.foldl (dstep c) st
 
 end Pithos.Notify
